@@ -61,6 +61,7 @@ pub struct Monitors {
     pub sp: crate::special::SpecialState,
     pub anchors: crate::anchors::AnchorState,
     pub events: crate::eventsmon::EventsState,
+    pub undo: Option<crate::undomon::UndoState>,
 }
 
 impl Monitors {
@@ -96,6 +97,7 @@ impl Monitors {
             sp: crate::special::SpecialState::new(cfg, nodes),
             anchors: Default::default(),
             events: Default::default(),
+            undo: None,
         }
     }
 }
